@@ -156,6 +156,43 @@ func insideLookahead(doc []byte, at int) bool {
 	return false
 }
 
+// alignToBuffer prepends whitespace to a text document so that one of its
+// lookahead-hungry tokens (chosen by pick) straddles a 4096-byte boundary of
+// the reader's bufio buffer. The document denotes the same values.
+func alignToBuffer(doc []byte, pick func(n int) int) []byte {
+	type occ struct{ pos, n int }
+	var occs []occ
+	s := string(doc)
+	for _, tok := range lookaheadTokens {
+		if len(tok) < 2 {
+			continue
+		}
+		for i := 0; ; {
+			j := strings.Index(s[i:], tok)
+			if j < 0 {
+				break
+			}
+			occs = append(occs, occ{i + j, len(tok)})
+			i += j + 1
+		}
+	}
+	if len(occs) == 0 {
+		return doc
+	}
+	o := occs[pick(len(occs))]
+	inside := 1 + pick(o.n-1) // how many bytes of the token lie before the boundary
+	pad := (4096 - inside - o.pos%4096 + 4096) % 4096
+	out := make([]byte, 0, pad+len(doc))
+	if pad >= 4 && pick(2) == 1 {
+		out = append(out, "/*"...)
+		out = append(out, bytes.Repeat([]byte{'c'}, pad-4)...)
+		out = append(out, "*/"...)
+	} else {
+		out = append(out, bytes.Repeat([]byte{' '}, pad)...)
+	}
+	return append(out, doc...)
+}
+
 func isBinaryDoc(doc []byte) bool {
 	return len(doc) >= 4 && doc[0] == 0xE0 && doc[3] == 0xEA
 }
@@ -350,6 +387,12 @@ func c19Doc(t *rapid.T, allowInvalid bool) []byte {
 			doc = sb.Bytes()
 		}
 	}
+	if isBinaryDoc(doc) && gen.Chance(t, 4) {
+		// a last value longer than 64 KiB (the binary reader reads such values
+		// incrementally)
+		n := 65536 + gen.Pick(t, []int{1, 100, 4095, 4096, 20000})
+		doc = append(append([]byte{}, doc...), c19BigValue(gen.Pick(t, []byte{0x8E, 0xAE, 0x9E}), n)...)
+	}
 	if allowInvalid && gen.Chance(t, 25) && len(doc) > 0 {
 		doc = append([]byte{}, doc...)
 		switch gen.Intn(t, 3) {
@@ -364,6 +407,12 @@ func c19Doc(t *rapid.T, allowInvalid bool) []byte {
 		}
 	}
 	return doc
+}
+
+// c19BigValue is a binary string / blob / clob of n bytes.
+func c19BigValue(tag byte, n int) []byte {
+	out := append([]byte{tag}, refbin.VarUInt(nil, uint64(n), 0)...)
+	return append(out, bytes.Repeat([]byte{'x'}, n)...)
 }
 
 // c19Hostile are values whose text spelling needs multi-byte lookahead.
@@ -799,6 +848,21 @@ func TestC19(t *testing.T) {
 					cc.FailAt, cc.Partial, cc.Transient = j, m&1 == 1, m&2 == 2
 					if !yield(cc) {
 						return
+					}
+				}
+			}
+		}
+	})
+	// documents ending in a value longer than 64 KiB under the coarse plans
+	Enumerate(t, chunk, "big-last-value", func(yield func(C19Read) bool) {
+		for _, n := range []int{65537, 70000, 65536 + 4096} {
+			for _, tag := range []byte{0x8E, 0xAE} {
+				d := append(append(append([]byte{}, refbin.IVM...), 0x21, 0x01), c19BigValue(tag, n)...)
+				for k := 0; k < 4; k++ {
+					for _, chunks := range [][]int{nil, {4096}, {1 << 20}, {5000, 70000}, {100000}} {
+						if !yield(C19Read{Doc: d, FailAt: -1, Chunks: chunks, EOFWithData: k&1 == 1, Shallow: k&2 == 2}) {
+							return
+						}
 					}
 				}
 			}
